@@ -1304,7 +1304,13 @@ func (s *Store) LockOutput(ns walletdb.ReadWriteBucket, id LockID,
 		return time.Time{}, ErrOutputAlreadyLocked
 	}
 
+	// Lock expirations are stored with second precision. Round the expiry
+	// up to the next whole second so that the output is never released
+	// before the expiry reported to the caller.
 	expiry := s.clock.Now().Add(duration)
+	if expiry.Nanosecond() != 0 {
+		expiry = time.Unix(expiry.Unix()+1, 0)
+	}
 	if err := lockOutput(ns, id, op, expiry); err != nil {
 		return time.Time{}, err
 	}
